@@ -1,5 +1,7 @@
-"""C09 - see properties.jsonl; META is filled in below."""
-META = {"level": "proof", "trusted_base": [], "assumptions": [], "explanation": ""}
+"""C09 - claim and bounded driver; statement in properties.jsonl, design in DESIGN.md section 7."""
+from props.meta import META as _M
+
+META = _M["C09"]
 
 try:
     from props.C09_rac import rac, replay   # bounded run-time contract driver (stand-in + replay harness)
